@@ -99,6 +99,14 @@ def measure_common(m, obj, psi, tab, den, sites_n, env=False):
         idx = sorted(d)
         got = hm.quiet(obj.expectation_value, nm, sites=idx)
         m.cmp('expectation_value', got, [d[i] for i in idx], den, name=nm)
+    # ---- a LIST of operators is indexed by the site (ops[(j mod L) mod len(ops)] for site j), whatever `sites` selects
+    if len(set(kinds)) == 1 and n >= 3 and by_name:
+        nm = sorted(by_name)[0]
+        d = by_name[nm]
+        Dnum = hm.gi(tab['D'])
+        for sel in ([1, 2], list(range(n - 1, -1, -1))):
+            got = hm.quiet(obj.expectation_value, [nm, 'Id'], sites=sel)
+            m.cmp('expectation_value', got, [d[j] if (j % psi.L) % 2 == 0 else Dnum for j in sel], den, name=nm, ops_list=True)
     # ---- two-site operators
     for (i, pr), num in items(tab['ev2']):
         op = two_site_op(sites[i], sites[i + 1], pr[0], pr[1])
@@ -203,6 +211,62 @@ def measure_common(m, obj, psi, tab, den, sites_n, env=False):
                 rp.violation('term_list_correlation_function_right', 'caller-array-modified', dict(sL=sL.tolist(), sR=sR.tolist()), evaluation=rnd)
                 m.ok = False
                 break
+        rowd = dict(items(tlc.get('valdef', [])))
+        if rowd and psi.bc != 'infinite':
+            # default j_R of a finite MPS: the right terms (here starting at relative site 1) start right of the left terms
+            Rt1 = [[(x[0], x[1]) for x in t] for t in tlc['tr1']]
+            jd = sorted(rowd)
+            sig = dict(default_j_R=True, ops=' '.join(t[0][0] for t in Lt + Rt1))
+            try:
+                got = hm.quiet(obj.term_list_correlation_function_right, TermList(Lt, keepL.copy()), TermList(Rt1, keepR.copy()))
+                m.cmp('term_list_correlation_function_right', got, [hm.gi(rowd[j]) for j in jd], den, rtol=1e-9, **sig)
+            except Exception as e:  # an exception of the code under test is an observable result
+                rp.violation('term_list_correlation_function_right', 'exception', dict(error=repr(e)), error=type(e).__name__, **sig)
+                m.ok = False
+
+
+def list_corr(m, obj, tab, den):
+    """correlation_function with lists of operator names (site i uses ops[(i mod L) mod len(ops)])"""
+    for (ops1, ops2, i, j), num in items(tab):
+        sig = dict(ops='%s | %s' % (' '.join(ops1), ' '.join(ops2)), list_ops=True, outside_unit_cell=max(i, j) >= m.rp.psi.L)
+        try:
+            got = hm.quiet(obj.correlation_function, list(ops1), list(ops2), sites1=[i], sites2=[j])
+        except Exception as e:  # an exception of the code under test is an observable result
+            m.rp.ctx.case((m.rp.origin, m.rp.step, 'lcorr', str(sig)), action='%s.correlation_function' % SPEC)
+            m.rp.violation('correlation_function', 'exception', dict(error=repr(e), i=i, j=j), error=type(e).__name__, **sig)
+            m.ok = False
+            continue
+        m.cmp('correlation_function', np.asarray(got).reshape(-1), [hm.gi(num)], den, **sig)
+
+
+def sample_with_ops(m, psi, tab, den, n):
+    """sample_measurements(first_site, last_site, ops): eigenvalues of the documented operator per site, weight^2 = Born probability"""
+    sample_ops = [['Sigmaz', 'Sz'], ['Sigmax', 'Sigmaz'], ['Sigmax', 'Sigmay', 'Sigmaz']]
+    for (o, f), probs in items(tab):
+        ops = sample_ops[o - 1]
+        table = {tuple(k): hm.gi(v).real for k, v in items(probs)}
+        for trial in range(3):
+            rng = np.random.default_rng(7919 * m.rp.ctx.seed + 31 * trial + o)
+            amp = trial != 2
+            sig = dict(with_ops=True, first_site=f, n_ops=len(ops), complex_amplitude=amp, L1=False,
+                       leaves_unit_cell=n > psi.L)
+            sigmas, w = hm.quiet(psi.sample_measurements, first_site=f, last_site=n - 1, ops=ops, rng=rng, complex_amplitude=amp)
+            lam = []
+            good = True
+            for k, sv in enumerate(sigmas):
+                nm = ops[k % len(ops)]              # documented: ops[(i - first_site) % len(ops)]
+                x = float(np.real(sv)) * (2.0 if nm == 'Sz' else 1.0)
+                if abs(abs(x) - 1.0) > 1e-9:
+                    good = False
+                lam.append(int(round(x)))
+            m.rp.ctx.case((m.rp.origin, m.rp.step, 'sample-ops', o, f, trial), action='%s.sample_measurements' % SPEC)
+            if not good:
+                m.rp.violation('sample_measurements', 'eigenvalue-of-wrong-operator', dict(sigmas=[float(np.real(x)) for x in sigmas], ops=ops), **sig)
+                m.ok = False
+                continue
+            prob = table[tuple(lam)] / (2.0 ** len(lam) * den)
+            got = abs(w) ** 2 if amp else w
+            m.cmp('sample_measurements', got, prob, 1.0, rtol=1e-9, **sig)
 
 
 def h_measure(rp, l, o):
@@ -214,7 +278,13 @@ def h_measure(rp, l, o):
     n = len(m.kinds)
     if psi.bc != 'infinite':
         hm.quiet(psi.canonical_form)
+    else:
+        # product state (chi = 1, S = 1): normalize the local wave functions, as canonical_form would
+        from tenpy.linalg import np_conserved as npc
+        for k in range(psi.L):
+            psi._B[k] = psi._B[k] / npc.norm(psi._B[k])
     measure_common(m, psi, psi, tab, den, n)
+    list_corr(m, psi, l.get('lcorr', {}), den)
     sites = [psi.sites[k % psi.L] for k in range(n)]
     # ---- reduced density matrices, Renyi-2 mutual information
     pur = {}
@@ -245,6 +315,7 @@ def h_measure(rp, l, o):
         if m.cons == 'U1':    # (for Z_2 the mean of a charge defined mod 2 is not a dense observable)
             m.cmp('average_charge', hm.quiet(psi.average_charge, b), [mean], 1.0)
             m.cmp('charge_variance', hm.quiet(psi.charge_variance, b), [var], 1.0)
+    sample_with_ops(m, psi, l.get('sample', {}), den, n)
     # ---- sampling: the weight is the Born amplitude / probability of the sampled outcome
     nrm = np.sqrt(den)
     maps = [hm.std_to_impl(s) for s in sites]
@@ -280,14 +351,35 @@ def h_measure_env(rp, l, o):
     tab = l['tab']
     f12 = float(l['f12'])
     D = hm.gi(tab['D'])
+    fps = dict(bra=(bra, hm.fingerprint(bra)), ket=(ket, hm.fingerprint(ket)))
+    gauge_shift = l['bra']['qb'][0] != [0] * len(l['bra']['qb'][0])
+
+    def operands_unchanged(after):
+        # measurements are stuttering steps: no operand MPS changes (state, norm, total charge, legs / qtotal of the tensors)
+        for name, (obj, fp) in fps.items():
+            ch = hm.operand_changed(fp, obj)
+            rp.ctx.case((rp.origin, rp.step, 'operand', after, name), action='%s.operand_unchanged' % SPEC)
+            if ch:
+                rp.violation(after, 'operand-changed', dict(operand=name, changed=ch), operand=name, cons=m.cons, gauge_shift=gauge_shift)
+                m.ok = False
+                return False
+        return True
     ov = hm.quiet(bra.overlap, ket)
     m.cmp('overlap', ov, D * f12, 1.0, rtol=1e-12)
+    if not operands_unchanged('overlap'):
+        return False
     ov2 = hm.quiet(ket.overlap, bra)
     m.cmp('overlap', ov2, np.conj(D) * f12, 1.0, rtol=1e-12, swapped=True)
+    if not operands_unchanged('overlap'):
+        return False
     env = hm.quiet(MPSEnvironment, bra, ket)
+    if not operands_unchanged('MPSEnvironment'):
+        return False
     m.cmp('full_contraction', hm.quiet(env.full_contraction, 0), D * f12, 1.0, rtol=1e-12)
     # den = 1/f12: the environment variants return <bra|O|ket> * bra.norm * ket.norm
     measure_common(m, env, ket, tab, 1.0 / f12, len(m.kinds), env=True)
+    if not operands_unchanged('MPSEnvironment-measurements'):
+        return False
     return dict(skip_state=True) if m.ok else False
 
 
